@@ -396,6 +396,12 @@ class Term:
 
     __hash__ = None
 
+    def __bool__(self):
+        # truthiness of a float: x != 0 (`if not y:` in library code must see y == 0)
+        if self.const is not None:
+            return self.const != 0
+        return bool(self._cmp(0, '!='))
+
     def __repr__(self):
         if self.const is not None:
             return f"T({float(self.const)!r})"
